@@ -27,6 +27,7 @@ const T: Duration = Duration::from_secs(20);
 struct Node {
     router: Router,
     docs: Docs,
+    gossip: Gossip,
 }
 
 async fn node() -> anyhow::Result<Node> {
@@ -38,9 +39,9 @@ async fn node() -> anyhow::Result<Node> {
     let router = Router::builder(endpoint)
         .accept(iroh_blobs::ALPN, iroh_blobs::BlobsProtocol::new(&blobs_api, None))
         .accept(iroh_docs::ALPN, docs.clone())
-        .accept(iroh_gossip::ALPN, gossip)
+        .accept(iroh_gossip::ALPN, gossip.clone())
         .spawn();
-    Ok(Node { router, docs })
+    Ok(Node { router, docs, gossip })
 }
 
 async fn contents(w: &World, doc: &Doc) -> Option<Value> {
@@ -67,7 +68,8 @@ async fn all_contents(w: &World, handles: &[Doc]) -> Option<Vec<Value>> {
     Some(v)
 }
 
-pub fn run(w: &World, seed: u64, rng: &mut Rng, n: usize, trace: &mut Trace, sum: &mut Summary) {
+pub fn run(w: &World, seed: u64, rng: &mut Rng, n: usize, garbage_mode: u64, trace: &mut Trace, sum: &mut Summary) {
+    let garbage = garbage_mode > 0;
     let rt = tokio::runtime::Builder::new_multi_thread().worker_threads(4).enable_all().build().unwrap();
     for i in 0..n {
         let evs: Vec<Value> = rt.block_on(async {
@@ -128,6 +130,29 @@ pub fn run(w: &World, seed: u64, rng: &mut Rng, n: usize, trace: &mut Trace, sum
                     }
                 }
             }
+            // extension X06: a member of the gossip topic broadcasts bytes that are no `Op` (the topic id is the document id,
+            // every holder of a ticket can do it); the writes after it still have to reach everybody
+            let mut injected = false;
+            if garbage && rng.chance(2, 3) {
+                // let the topic mesh form first (a broadcast goes to the current neighbours)
+                tokio::time::sleep(Duration::from_millis(600)).await;
+                let k = 1 + rng.below(nn - 1);
+                let peers: Vec<iroh::EndpointId> = nodes.iter().enumerate().filter(|(i, _)| *i != k).map(|(_, n)| n.router.endpoint().id()).collect();
+                let topic = iroh_gossip::proto::TopicId::from_bytes(handles[0].id().to_bytes());
+                let sent = match tokio::time::timeout(T, nodes[k].gossip.subscribe(topic, peers)).await {
+                    Ok(Ok(sub)) => {
+                        let (sender, _recv) = sub.split();
+                        let bytes: Vec<u8> = (0..1 + rng.below(40)).map(|_| 0xF0 | rng.below(16) as u8).collect();
+                        // mode 2 is the control experiment: the same extra subscription, nothing undecodable is sent
+                        let r = if garbage_mode == 2 { true } else { sender.broadcast(bytes.into()).await.is_ok() };
+                        tokio::time::sleep(Duration::from_millis(300)).await;
+                        r
+                    }
+                    _ => false,
+                };
+                injected = sent && garbage_mode == 1;
+                out.push(json!({"ev": if garbage_mode == 1 { "Garbage" } else { "ExtraSubscription" },"n":k + 1,"sent":sent}));
+            }
             let steps = 4 + rng.below(12);
             for _ in 0..steps {
                 let k = rng.below(nn);
@@ -145,7 +170,7 @@ pub fn run(w: &World, seed: u64, rng: &mut Rng, n: usize, trace: &mut Trace, sum
             let mut stable_since = std::time::Instant::now();
             let mut converged = false;
             let mut sts = vec![];
-            while start.elapsed() < Duration::from_secs(60) {
+            while start.elapsed() < Duration::from_secs(if injected { 8 } else { 60 }) {
                 let Some(cur) = all_contents(w, &handles).await else { break };
                 let equal = cur.iter().all(|c| *c == cur[0]);
                 if Some(&cur) != last.as_ref() {
